@@ -518,6 +518,25 @@ def element_case(ctx, vocab, kind, mode, store, flavour, case_seed):
                           dict(case, victim=p, expected=SG.short(expected.get(p)), observed=SG.short(now[p]),
                                trace=[t[:2] for t in trace][-12:]))
     expected = now
+    # what a read returns is the caller's own copy: editing it in place (the read-modify-write idiom, which the library itself uses
+    # in add_child_interface) changes nothing until it is written back
+    from fim.slivers.capacities_labels import JSONField
+    probed = 0
+    for p in sorted(now):
+        try:
+            v1 = el.get_property(p)
+        except Exception:
+            continue
+        if isinstance(v1, JSONField) and any(x is not None for x in v1.__dict__.values()):
+            for k in list(v1.__dict__):
+                v1.__dict__[k] = None
+            probed += 1
+            again = SG.canon_value(el.get_property(p))
+            if not SG.G_typed_equal(again, expected.get(p)):
+                ctx.violation(f'C02/read-value-shared:{K}.{p}', 'reading a property back returns an equal value - whatever the caller did to '
+                              'the object an earlier read returned', dict(case, property=p, expected=SG.short(expected.get(p)), observed=SG.short(again)))
+    if probed:
+        ctx.count('clause:read-value-independent')
     # set again: a property that already holds a value gets another one (True -> False, long -> short, ...)
     again = [g for g in steps if all(p not in SG.IDENTITY for p in g)]
     rng.shuffle(again)
